@@ -23,6 +23,8 @@ def concrete_pattern(world, pat):
     """abstract pattern string -> concrete gitwildmatch line"""
     if pat.startswith("n:"):
         return world.names[pat[2:]]
+    if pat.startswith("!n:"):
+        return "!" + world.names[pat[3:]]
     if pat == "g:tmp":
         return "*.tmp"
     if pat.startswith("a:"):  # anchored path pattern
@@ -41,6 +43,8 @@ def abstract_pattern(world, conc):
         return "d:" + world.rnames[conc[:-1]]
     if conc in world.rnames:
         return "n:" + world.rnames[conc]
+    if conc.startswith("!") and conc[1:] in world.rnames:
+        return "!n:" + world.rnames[conc[1:]]
     if "/" in conc and all(c in world.rnames for c in conc.split("/")):
         return "a:" + "/".join(world.rnames[c] for c in conc.split("/"))
     return "?:" + conc
